@@ -192,6 +192,14 @@ func runC07(r *Run, rng *Rng, thorough bool) {
 						{"null+other-unknown", -1, nil, "", nil, "!unknown"},
 						{"unknown+other-null", -2, nil, "", nil, "!unknown"},
 						{"profile-empty-string", profKey, nTstr(""), jn, jS(""), "!unknown"},
+						// JSON only: a profile member that is present with a value of another type declares something, and it is
+						// not a registered name (an absent or null member is the only "no profile declared")
+						{"other-key-number", 0, nil, jo, jI(2), "?"},
+						{"other-key-bool", 0, nil, jo, &JTree{Kind: jBool, B: true}, "?"},
+						{"other-key-array", 0, nil, jo, jA(jS(canonOf(3 - p))), "?"},
+						{"other-key-object", 0, nil, jo, jO(), "?"},
+						{"own-key-number", 0, nil, jn, jI(1), "?"},
+						{"absent+other-number", -3, nil, "", nil, "!unknown"},
 					}
 					if p == 2 {
 						for _, sp := range []string{"HTTP://arm.com/psa/2.0.0", "http://arm.com/psa/2.0.0#", "http://ARM.com/psa/2.0.0", "http://arm.com/psa/2.0.0/"} {
@@ -219,13 +227,18 @@ func runC07(r *Run, rng *Rng, thorough bool) {
 							setKey(t, otherKey, nTstr("http://example.com/unregistered"))
 							j.set(jn, jN())
 							j.set(jo, jS("http://example.com/unregistered"))
+						case -3: // own profile member absent, the other profile's member present with a number
+							delKey(t, profKey)
+							setKey(t, otherKey, nTstr("http://example.com/unregistered"))
+							j.del(jn)
+							j.set(jo, jI(2))
 						case -2:
 							setKey(t, profKey, nTstr("http://example.com/unregistered"))
 							setKey(t, otherKey, nNull())
 							j.set(jn, jS("http://example.com/unregistered"))
 							j.set(jo, jN())
 						}
-						if v.cborKey != 0 && v.cborKey != -1 && v.cborKey != -2 {
+						if v.cborKey != 0 && v.cborKey != -1 && v.cborKey != -2 && v.cborKey != -3 {
 							if v.val == nil {
 								delKey(t, v.cborKey)
 							} else {
